@@ -30,12 +30,24 @@ class State:
         self.dir = tempfile.mkdtemp(prefix="gverif-c14-")
         self.ending = ending
         cfgpath = os.path.join(self.dir, "cfgpath.gcode")
-        self.g = GCodeBuilder(line_endings=ending, output=cfgpath) if "cfgpath" in names else GCodeBuilder(line_endings=ending)
+        self.cfgmem = None
+        if "cfgmem" in names:
+            # the output option given as a caller-owned in-memory stream inside a GConfig instance
+            import io
+            from gscrib.config import GConfig
+            self.cfgmem = io.BytesIO()
+            self.g = GCodeBuilder(GConfig(line_endings=ending, output=self.cfgmem))
+        elif "cfgpath" in names:
+            self.g = GCodeBuilder(line_endings=ending, output=cfgpath)
+        else:
+            self.g = GCodeBuilder(line_endings=ending)
         self.end = ending.encode().decode("unicode-escape").encode("utf-8")
         self.writers, self.kind, self.path, self.stream = {}, {}, {}, {}
         for n in names:
             path = os.path.join(self.dir, n + ".gcode")
-            if n == "cfgpath":
+            if n == "cfgmem":
+                self.writers[n], self.kind[n], self.path[n], self.stream[n] = self.g.get_writer(0), "stream", None, self.cfgmem
+            elif n == "cfgpath":
                 # the file writer the builder creates itself from its `output` option (registered from the start)
                 self.writers[n], self.kind[n], self.path[n] = self.g.get_writer(0), "path", path
             elif n.startswith("path"):
@@ -57,7 +69,7 @@ class State:
             else:
                 self.writers[n], self.kind[n] = Recorder(n), "recorder"
         # reference model
-        self.registry = ["cfgpath"] if "cfgpath" in names else []
+        self.registry = ["cfgpath"] if "cfgpath" in names else (["cfgmem"] if "cfgmem" in names else [])
         self.log = {n: b"" for n in names}          # everything a writer should have received
         self.session = {n: b"" for n in names}      # path files: content of the current (or last) session
         self.open = {n: False for n in names}       # path files: session open (written since last disconnect)
@@ -106,6 +118,8 @@ class C14System:
         return ops
 
     def read(self, st, n):
+        if n == "cfgmem":
+            return st.cfgmem.getvalue()
         try:
             with open(st.path[n], "rb") as f:
                 data = f.read()
@@ -255,11 +269,13 @@ def systems(tier):
         return [("lf-4writers", C14System(["pathA", "text", "rec1", "rec2"], "\\n", 2), 5, None),
                 ("crlf-3writers-debug-logging", debug(C14System(["rec1", "pathA", "binary"], "\\r\\n", 2)), 5, None),
                 ("output-option", C14System(["cfgpath", "rec1", "codecs", "utf16"], "\\n", 2), 4, None),
-                ("formatter-replaced", C14System(["rec1", "pathA"], "\\n", 2, formatters=True), 4, None)]
+                ("formatter-replaced", C14System(["rec1", "pathA"], "\\n", 2, formatters=True), 4, None),
+                ("output-option-stream-in-GConfig", C14System(["cfgmem", "rec1"], "\\n", 2), 4, None)]
     return [("lf-5writers", C14System(["pathA", "pathB", "text", "rec1", "rec2"], "\\n", 3), 6, None),
             ("crlf-4writers-debug-logging", debug(C14System(["rec1", "pathA", "binary", "text"], "\\r\\n", 3)), 7, None),
             ("output-option", C14System(["cfgpath", "rec1", "pathA", "codecs", "utf16"], "\\n", 3), 6, None),
-            ("formatter-replaced", C14System(["rec1", "pathA", "text"], "\\n", 3, formatters=True), 5, None)]
+            ("formatter-replaced", C14System(["rec1", "pathA", "text"], "\\n", 3, formatters=True), 5, None),
+            ("output-option-stream-in-GConfig", C14System(["cfgmem", "rec1", "pathA"], "\\n", 3), 5, None)]
 
 
 def run(tier, seed):
